@@ -590,27 +590,30 @@ fn send_cmd_ctx_to_remote_directly<C: ConnFactory<Pkt = RespPacket>>(
     address: String,
     max_redirections: Option<NonZeroUsize>,
 ) {
-    let times = cmd_ctx
-        .get_redirection_times()
-        .or_else(|| max_redirections.map(|n| n.get() - 1));
-    if let Some(times) = times {
-        let times = match times.checked_sub(1) {
-            None => {
-                cmd_ctx.set_resp_result(Ok(Resp::Error(
-                    response::ERR_TOO_MANY_REDIRECTIONS.to_string().into_bytes(),
-                )));
-                return;
-            }
-            Some(times) => times,
-        };
-
-        let res = cmd_ctx.wrap_cmd(vec![b"UMFORWARD".to_vec(), times.to_string().into_bytes()]);
-        if !res {
+    // Even without a limit the command has to be wrapped in UMFORWARD:
+    // the wrapper tells the next proxy that this command has already been
+    // processed (e.g. its value has been compressed) by the first proxy.
+    let times = cmd_ctx.get_redirection_times().unwrap_or_else(|| {
+        max_redirections
+            .map(|n| n.get() - 1)
+            .unwrap_or(std::usize::MAX)
+    });
+    let times = match times.checked_sub(1) {
+        None => {
             cmd_ctx.set_resp_result(Ok(Resp::Error(
-                b"failed to wrap command for redirections".to_vec(),
+                response::ERR_TOO_MANY_REDIRECTIONS.to_string().into_bytes(),
             )));
             return;
         }
+        Some(times) => times,
+    };
+
+    let res = cmd_ctx.wrap_cmd(vec![b"UMFORWARD".to_vec(), times.to_string().into_bytes()]);
+    if !res {
+        cmd_ctx.set_resp_result(Ok(Resp::Error(
+            b"failed to wrap command for redirections".to_vec(),
+        )));
+        return;
     }
 
     let res = meta_map
